@@ -32,6 +32,10 @@ def cases(tier, seed):
         k = i % 10
         kind = 'small-strict' if k < 4 else 'small-ext' if k < 7 else 'corpus' if k < 8 else 'union'
         out.append({'prop': ID, 'seed': seed, 'idx': i, 'kind': kind, 'tier': tier})
+    from ..witness import WITNESSES
+    for rep in range(2 if tier == 'quick' else 12):
+        for i in range(len(WITNESSES)):
+            out.insert(0, {'prop': ID, 'seed': seed, 'idx': 10 ** 6 + rep * 100 + i, 'kind': 'witness', 'witness': i, 'tier': tier})
     big = [c for c in out if c['kind'] in ('corpus', 'union')]
     head = big[:120]
     hs = {id(c) for c in head}
@@ -53,7 +57,15 @@ def run_case(case):
     weakly = False
     src = kind
     small = kind.startswith('small')
-    if kind == 'small-strict':
+    wq = None
+    if kind == 'witness':
+        from .. import witness
+        wname, sig, conds, wq, ext_only = witness.asts(case['witness'])
+        weakly = bool(ext_only) or rng.random() < 0.2
+        src = 'witness:' + wname
+        small = len(sig) <= 6
+        bump('witness_cases')
+    elif kind == 'small-strict':
         sig, conds, _ = gen.gen_base(rng, 'strong')
     elif kind == 'small-ext':
         sig, conds, _ = gen.gen_base(rng, 'weak_or_strong')
@@ -100,6 +112,13 @@ def run_case(case):
     Cs.append(Not(Cs[1]))                         # RM side condition
     Cs.append(fml.rand_formula(rng, atoms, 1, 0.02))
     Cs.append(V(rng.choice(atoms)))
+    if wq:
+        # the witness's own (delicate) queries supply antecedents and consequents
+        pick = rng.sample(wq, min(2, len(wq)))
+        while len(As) < 4:
+            As.append(pick[0][1])
+        As[2], As[3] = pick[0][1], pick[-1][1]
+        Cs[-2], Cs[-1] = pick[0][0], pick[-1][0]
     b1 = []                                       # (tag, B, A)
     for ai, A in enumerate(As):
         for ci, C in enumerate(Cs):
